@@ -36,6 +36,11 @@ def run(fx, rep, tier):
     rule_poll(fx, rep)
 
 
+def pC04_exempt(fx):
+    import pC04
+    return pC04.exempt_roots(fx)
+
+
 def rule_poll(fx, rep):
     """The limits only bind if they are polled: both search functions (negamax and quiescence - a single quiescence tree can be
     arbitrarily large) consult TimeStrategy::should_stop on entry and abort on it. This is the C09-POLL clause, re-reported here
@@ -54,7 +59,32 @@ def rule_poll(fx, rep):
         rep.violation("C14-POLL", v["key"].replace("C09-POLL", "C14-POLL"), v["msg"] + " (the time limits are then not honoured inside that part of the tree)", v["site"])
     rep.obligations += sub.obligations
     rep.discharged += sub.discharged
-    rep.rule("C14-POLL", sub.obligations, 2, not vs, "time limits polled by both search functions (shared with C09-POLL)")
+    # ... and nothing in the search's cone makes an unpolled pass over the whole transposition table: the clock is started by the
+    # go handler before search::search runs, the table has up to 2^26 slots, and a pass over it (reset, resize, any loop or
+    # bulk operation over the slot vector) takes longer than a short time limit (seed C14-6a: the table wiped from
+    # new_generation() whenever the 8-bit generation counter wraps)
+    search = fx.one("engine::search::search")
+    cone = fx.cone([search.name], stop=pC04_exempt(fx))
+    n_tp = 0
+    bad_tp = []
+    for nm in sorted(cone):
+        b = fx.bodies[nm]
+        if "transposition_table::TranspositionTable" not in norm(nm) or b.kind not in ("AssocFn", "Closure"):
+            continue
+        n_tp += 1
+        live = b.live_blocks()
+        loops = any(i in b.reachable(j) for i in live for j in b.succ(i))
+        bulk = [norm(callee_name(t) or "").split("::")[-1] for bb, t in b.calls()
+                if norm(callee_name(t) or "").split("::")[-1] in ("fill", "for_each", "resize", "clear", "iter_mut", "chunks_mut", "chunks_exact_mut", "fill_with", "extend", "collect", "shrink_to_fit") and
+                t["args"] and any(isinstance(x, tuple) and len(x) == 3 and x[0] == "field" and x[2] == "data" for x in walk(b.expr(t["args"][0], expand_named=True, at=bb)))]
+        if loops or bulk:
+            bad_tp.append((b, "a loop" if loops else f"`{bulk[0]}` over the slot vector"))
+    rep.obligation(not bad_tp, max(1, n_tp))
+    for b, why in bad_tp:
+        vs = vs + [None]
+        rep.violation("C14-POLL", f"C14-POLL/table-pass/{norm(b.name).split('::')[-1]}", f"`{b.name}` is reachable from search::search and contains {why}: a pass over the whole table runs after the clock was started and without any time poll, so a short limit is overrun by the time the pass takes",
+                      {"fn": b.name, "file": b.file, "line": b.line})
+    rep.rule("C14-POLL", sub.obligations + n_tp, 2, not vs, "time limits polled by both search functions (shared with C09-POLL); no unpolled pass over the table in the search cone")
 
 
 GO_FIELDS = ("wtime", "btime", "winc", "binc", "movestogo", "movetime")
@@ -833,6 +863,8 @@ S = "src/engine/search/mod.rs"
 U = "src/engine/uci/mod.rs"
 P = "src/engine/uci/parser.rs"
 MUTANTS = [
+    {"name": "table wiped from new_generation() when the generation counter wraps (seed C14-6a)", "expect": "C14-POLL/table-pass",
+     "edits": [("src/engine/transposition_table.rs", "        self.generation = self.generation.wrapping_add(1);", "        self.generation = self.generation.wrapping_add(1);\n        if self.generation == 0 {\n            self.reset();\n        }")]},
     {"name": "limits extended after construction (seed C14-5a)", "expect": "C14-CAP/late-write",
      "edits": [("src/engine/search/time_control.rs", "    pub fn elapsed(&self) -> Duration {", "    pub fn extend(&mut self) {\n        self.soft_stop = self.soft_stop.mul_f32(1.5);\n        self.hard_stop = self.hard_stop.mul_f32(1.5);\n    }\n\n    pub fn elapsed(&self) -> Duration {"),
                ("src/engine/search/iterative_deepening.rs", "        best_move = Some(*pv.first().unwrap());", "        if overall_eval.is_some_and(|previous| eval < previous) {\n            ctx.time_control.extend();\n        }\n        best_move = Some(*pv.first().unwrap());")]},
